@@ -5,7 +5,7 @@ SPEC = {
     'id': 'C27',
     'harness': 'hC27',
     'coq_dir': 'C27',
-    'claimed': False,
+    'claimed': True,
     'theorems': ['C27_main_only_valid', 'C27_served_was_delivered',
                  'C27_rejected_no_effect_refuted', 'C27_rejected_no_effect_partial', 'C27_rejected_no_effect_nonvacuous',
                  'C27_no_poison_refuted', 'C27_no_poison_partial', 'C27_no_poison_nonvacuous',
